@@ -8,7 +8,9 @@ Streams
                       arguments) and SharedDataMiddleware (one or several exports: directories given as
                       absolute / relative / slash-terminated / dotted paths, single-file exports, package
                       exports, mixed; dict or list of pairs; mount points "/static", "/", "", "/static/",
-                      nested keys; `disallow` patterns; the export key itself) over a real temporary tree in
+                      nested keys; `disallow` patterns; the export key itself, incl. the directory loader's
+                      exact-key branch with a value that became a regular file after the middleware was built
+                      (export kind "late:", two file-system states in the model)) over a real temporary tree in
                       which every file has a unique content, with sentinel files outside the roots; request
                       paths percent-decoded as the dev server does; model prediction = Model.StaticFiles
                       (sendFromDirectory[Root] / mkExports / sharedData) with the existing files as the opaque
@@ -216,17 +218,22 @@ INSIDE_NAMES = ["index.html", "a/b.txt", ".hidden", "a.b/c..d", "sp ace.txt", ".
 INSIDE = {rel: b"inside:" + rel.encode() for rel in INSIDE_NAMES}
 ALT_NAMES = ["index.html", "x.css", "b.txt", "only-alt.txt"]
 OUTSIDE_NAMES = ["outside/secret.txt", "root-evil/secret.txt", "rootsecret.txt", "secret.txt", "outside/a/b.txt", "outside/index.html"]
+LATE_NAMES = ["index.html", "x.css", "secret.txt", "\\"]
 PKG_FILES = ["__init__.py", "static/x.css", "static/a/b.txt", "static/\\", "static/index.html", "secret.txt", "static-evil/secret.txt"]
 _TREE = {}
 
 
 def tree():
-    """create top/c14/{root,alt,outside,root-evil,pkgroot}/... once per process, removed at exit"""
+    """create top/c14[/t...]/{root,alt,outside,root-evil,pkgroot}/... once per process, removed at exit"""
     if _TREE:
         return _TREE
     top = f"/var/tmp/wzverif.{os.getpid()}"
-    base = os.path.join(top, "c14")
-    shutil.rmtree(base, ignore_errors=True)
+    # the tree sits as many levels below `top` as the working directory sits below its common ancestor
+    # with `top`: then <base>/<relative path of base>, where a relative `_root_path` joined twice
+    # (F14b) lands, is inside `top` whatever directory the check runs from
+    ups = [c for c in os.path.relpath(top, os.getcwd()).split("/") if c == ".."]
+    base = os.path.join(top, "c14", *["t"] * max(0, len(ups) - 1))
+    shutil.rmtree(os.path.join(top, "c14"), ignore_errors=True)
     root = os.path.join(base, "root")
     content = {}
 
@@ -254,10 +261,20 @@ def tree():
     # is then opened lives here (a mirror of the root below base/<relative path of base>)
     relbase = os.path.relpath(base, os.getcwd())
     mirror = os.path.normpath(os.path.join(base, relbase, "root"))
-    if not (mirror + "/").startswith(top + "/"):
+    if not (mirror + "/").startswith(top + "/") or (mirror + "/").startswith(root + "/") or os.path.lexists(mirror):
+        # (not expected with the layout above) outside the scratch area, or on top of the tree itself:
+        # nothing is created; the model is given the working directory and predicts the outcome
         mirror = None
     else:
-        put(os.path.join(mirror, "index.html"), SENTINEL + b":mirror/index.html")
+        # every file of the root has a counterpart there (with a sentinel content of its own), so the
+        # outcome the model predicts for the double join is a specific 200 for every served name
+        for rel in INSIDE_NAMES:
+            put(os.path.join(mirror, rel), SENTINEL + b":mirror/" + rel.encode())
+    # files that come into being only after a SharedDataMiddleware was built (export spec "late:<name>"):
+    # registered by content, created / removed around each request by StaticFiles.real
+    for name in LATE_NAMES:
+        content[b"late:" + name.encode()] = os.path.join(base, "late", name)
+    os.makedirs(os.path.join(base, "late"), exist_ok=True)
     import sys
 
     sys.path.insert(0, os.path.join(base, "pkgroot"))
@@ -289,9 +306,27 @@ def export_value(spec):
     if kind == "file":
         v = os.path.join(t["root"], arg)
         return v, ("v", v, ""), v
+    if kind == "late":
+        # a str value that names nothing when the middleware is built (-> directory loader) and is a
+        # regular file by the time of the request: served by the loader's exact-key branch only
+        v = os.path.join(t["base"], "late", arg)
+        return v, ("v", v, ""), v
     if kind == "pkg":
         return (t["pkgname"], arg), ("p", t["pkgdir"], arg), os.path.join(t["pkgdir"], arg or ".")
     raise ValueError(spec)
+
+
+def late_files(case):
+    """the files of a (normalised) sdm case that are created between construction and request"""
+    t = tree()
+    out = []
+    for _key, spec in case.get("exports", []):
+        kind, _, arg = spec.partition(":")
+        if kind == "late":
+            p = os.path.join(t["base"], "late", arg)
+            if p not in out:
+                out.append(p)
+    return out
 
 
 MOUNTS = ["/static", "/static", "/static", "/", "", "/static/", "/s/t", "/static/a", "/a"]
@@ -312,7 +347,14 @@ CONFIGS = [
     [("@", "pkg:"), ("@", "dir:abs")],  # package_path "" = the package directory itself
     [("@", "dir:subdot")],
     [("@", "pkg:static/a"), ("@", "pkg:static/")],
+    # the directory loader's exact-key branch (`loader(None)`: the export value itself is tested and
+    # opened): a value that became a regular file after the middleware was built
+    [("@", "late:index.html")],
+    [("@", "late:x.css"), ("@", "dir:abs")],
+    [("@/x.css", "late:secret.txt"), ("@", "dir:alt")],
+    [("@", "dir:empty"), ("@", "late:\\"), ("@/a", "late:index.html")],
 ]
+EXACT_KEY_CONFIGS = [c for c in CONFIGS if any(spec.startswith("late:") for _k, spec in c)]
 DISALLOW = [None, None, None, "*.txt", "secret*", "index.html", "[ab]*", "*"]
 
 # request targets (raw, as sent on the wire, below the mount point)
@@ -443,7 +485,10 @@ def with_slash(mount):
 
 def inside_dir(path, root):
     """is the existing file `path` the file `root` or below the directory `root`? (no symlinks in the tree)"""
-    path, root = os.path.realpath(path), os.path.realpath(root)
+    try:
+        path, root = os.path.realpath(path), os.path.realpath(root)
+    except (ValueError, OSError):  # NUL, over-long names, ...: names no file, hence not inside
+        return False
     return path == root or path.startswith(root.rstrip("/") + "/")
 
 
@@ -499,6 +544,20 @@ class StaticFiles(Stream):
                     yield self.sdm_case(mount, config, raw, as_list=(len(raw) % 2 == 0))
                 c = self.sdm_case(mount, config, "")
                 yield {**c, "raw": mount}  # the export key itself (`loader(None)`)
+        # the exact-key branch of the directory loader: request path == export key. A directory value
+        # (nothing to serve: falls through to the prefix branch / the next export), and a value that
+        # became a file after the middleware was built (served: it is the export root itself)
+        for config in EXACT_KEY_CONFIGS:
+            for mount in ("/static", "/", "", "/static/", "/s/t"):
+                c = self.sdm_case(mount, config, "")
+                for key, _spec in c["exports"]:
+                    for raw in (key, key + "/", key + "/x", key.rstrip("/"), key + "/../index.html", key + "%00"):
+                        yield {**c, "raw": raw, "as_list": len(raw) % 2 == 1}
+                    yield {**c, "raw": key, "disallow": "secret*"}
+                    yield {**c, "raw": key, "disallow": "*"}
+        for rk in ROOT_KINDS + ["sub", "empty", "missing"]:
+            for mount in ("/static", "/", "", "/static/"):
+                yield {"kind": "sdm", "exports": [[mount, "dir:" + rk]], "raw": mount, "disallow": None, "as_list": False}
         for pat in DISALLOW[3:]:
             for raw in ("index.html", "a/b.txt", "a/secret.txt", "x.css"):
                 yield self.sdm_case("/static", [("@", "dir:abs")], raw, disallow=pat)
@@ -521,9 +580,10 @@ class StaticFiles(Stream):
             if rng.random() < 0.35:
                 yield {"kind": "sfd", "root": rng.choice(ROOT_KINDS), "raw": rand_raw(rng), "rootpath": rng.choice([None, None, None, "abs", "abs", "rel"]), "pathlike": rng.random() < 0.15}
             else:
-                c = self.sdm_case(rng.choice(MOUNTS), rng.choice(CONFIGS), rand_raw(rng), rng.choice(DISALLOW), rng.random() < 0.3)
-                if rng.random() < 0.06:
-                    c["raw"] = rng.choice(c["exports"])[0]  # an export key itself
+                config = rng.choice(EXACT_KEY_CONFIGS) if rng.random() < 0.08 else rng.choice(CONFIGS)
+                c = self.sdm_case(rng.choice(MOUNTS), config, rand_raw(rng), rng.choice(DISALLOW), rng.random() < 0.3)
+                if rng.random() < (0.5 if config in EXACT_KEY_CONFIGS else 0.06):
+                    c["raw"] = rng.choice(c["exports"])[0] + rng.choice(["", "", "", "/", "/.", "/x.css"])  # an export key itself
                 yield c
 
     @staticmethod
@@ -595,14 +655,25 @@ class StaticFiles(Stream):
             return f"{resp.status_code}|{body.hex() or '-'}"
         path, exports, _, _ = self.sdm_args(case)
         environ = make_environ(path)
+        late = late_files(case)
+        for p in late:  # (left over from an interrupted case)
+            if os.path.lexists(p):
+                os.unlink(p)
         mw = SharedDataMiddleware(fallback_app, exports if case["as_list"] else dict(exports), disallow=case["disallow"], cache=False)
         status = []
-        it = mw(environ, lambda s, h, exc_info=None: status.append(s))
+        it = None
         try:
+            for p in late:
+                with open(p, "wb") as f:
+                    f.write(b"late:" + os.path.basename(p).encode())
+            it = mw(environ, lambda s, h, exc_info=None: status.append(s))
             body = b"".join(it)
         finally:
             if hasattr(it, "close"):
                 it.close()
+            for p in late:
+                if os.path.lexists(p):
+                    os.unlink(p)
         code = status[0].split()[0]
         if code == "404" and body == b"fallback":
             return "404|-"
@@ -639,9 +710,13 @@ class StaticFiles(Stream):
         flat = []
         for key, kind, a, b in groups:
             flat += [hs(key), kind, hs(a), hs(b)]
+        late = late_files(case)
         dis = []
         if case["disallow"] is not None:
-            dis = sorted({hs(os.path.basename(f)) for f in files if fnmatch(os.path.basename(f), case["disallow"])})
+            dis = sorted({hs(os.path.basename(f)) for f in files + late if fnmatch(os.path.basename(f), case["disallow"])})
+        if late:
+            # two file-system states: `late` exist at request time only (os.path.isfile in __init__ is false)
+            return line("sdmlate", hs(os.getcwd()), hs(path), str(len(groups)), *flat, str(len(dis)), *dis, str(len(late)), *[hs(f) for f in late], *hfiles)
         return line("sdm", hs(os.getcwd()), hs(path), str(len(groups)), *flat, str(len(dis)), *dis, *hfiles)
 
     def canon_model(self, case, out):
@@ -651,11 +726,14 @@ class StaticFiles(Stream):
         if out.startswith("EXC") or out.startswith("BAD") or out.startswith("UNKNOWN"):
             return out
         p = unhs(out.split(" ")[-1])  # sfdroot answers "<tested> <opened>"
+        t = tree()
+        if os.path.dirname(p) == os.path.join(t["base"], "late") and os.path.basename(p) in LATE_NAMES:
+            return "200|" + (b"late:" + os.path.basename(p).encode()).hex()  # exists during the request only
         try:
             with open(p, "rb") as f:
                 return "200|" + (f.read().hex() or "-")
-        except FileNotFoundError:
-            return "EXC:FileNotFoundError"
+        except (OSError, ValueError) as e:  # FileNotFoundError, or a name the OS refuses (NUL, too long)
+            return "EXC:" + type(e).__name__
 
     def served_file(self, real_out):
         code, _, body = real_out.partition("|")
@@ -680,16 +758,44 @@ class StaticFiles(Stream):
         return None
 
     def finding_key(self, case, what):
-        # F14b: send_from_directory + send_file join a *relative* `_root_path` twice: the file that was
-        # tested (inside the root) is not the file that is opened
+        try:
+            return self._finding_key(case, what)
+        except Exception:  # noqa: BLE001 - a violation that cannot be classified is not a known finding
+            return None
+
+    def _finding_key(self, case, what):
+        """F14b = exactly: send_from_directory called with a *relative* `_root_path`, and the observed
+        outcome is the one the Lean model (Model/StaticFiles.lean `sendFromDirectoryRoot`, negation witness
+        `send_from_directory_root_full_false`) predicts for this very case: the file tested is
+        join(r, safe_join(directory, path)), a regular file inside the root, and the file opened is
+        join(r, <tested>) - a different file: its content is served when it exists, FileNotFoundError
+        otherwise. Any other wrong outcome on such a case (a third join, another file, another exception)
+        is not F14b."""
+        from vlib.core import Driver, real_out
+
         case = self.norm(case)
-        if case["kind"] == "sfd" and case["rootpath"] == "rel":
-            _d, filename, _r, root = self.sfd_args(case)
-            tested = os.path.normpath(os.path.join(root, filename))
-            legit = inside_dir(tested, root) and os.path.isfile(tested) and not (filename.startswith("/") or "\x00" in filename)
-            mirror = tree()["mirror"]
-            if legit and ("EXC:FileNotFoundError" in what or (mirror and repr(mirror)[1:-1] in what)):
-                return "F14b"
+        if case["kind"] != "sfd" or case["rootpath"] != "rel":
+            return None
+        ml = self.model_line(case)
+        out = Driver("C14").batch([ml])[0]
+        fields = out.split(" ")
+        if len(fields) != 2 or out.startswith(("EXC", "BAD", "UNKNOWN")):
+            return None  # the model predicts a 404 (or nothing): no double join to blame
+        tested, opened = unhs(fields[0]), unhs(fields[1])
+        _d, _filename, rootpath, root = self.sfd_args(case)
+        if opened != os.path.join(rootpath, tested) or os.path.isabs(rootpath):
+            return None
+        if not (inside_dir(tested, root) and os.path.isfile(tested)) or inside_dir(opened, root):
+            return None  # the family: a legitimate request whose opened file left the root
+        predicted = self.canon_model(case, out)
+        observed = real_out(self, case)
+        if observed != predicted:
+            return None
+        if observed == "EXC:FileNotFoundError" and "EXC:FileNotFoundError" in what:
+            return "F14b"
+        code, _data, served = self.served_file(observed)
+        if code == "200" and served is not None and os.path.realpath(served) == os.path.realpath(opened) and repr(served) in what:
+            return "F14b"
         return None
 
     def nontrivial(self, case, real_out):
@@ -898,7 +1004,7 @@ class SecureFilenameNt(SecureFilename):
 
 CHECK = Check(
     prop="C14",
-    gen=["Paths", "PyFns_Paths", "StaticGlue"],
+    gen=["Paths", "PyFns_Paths", "StaticGlue", "UrlTables"],
     modules=["WzVerif.Props.C14", "WzVerif.Props.C14T"],
     streams=[NormpathKernel(), SafeJoin(), StaticFiles(), SecureFilename(), SecureFilenameNt(), PreludeKernels()],
     assumptions=[
@@ -908,7 +1014,7 @@ CHECK = Check(
         "unicodedata.normalize('NFKD', .) is an opaque parameter of the secure_filename model; the only law used (idempotence theorem) is that it is the identity on ASCII text; the harness computes the fold with unicodedata exactly as the code does",
         "the file system is outside the model: os.path.isfile enters Model/StaticFiles.lean as an arbitrary predicate (theorem served_path_inside_root holds for every such predicate); stream static-files passes the list of existing regular files; symbolic links inside the root, case-insensitive or name-normalising file systems and races between the isfile test and open() are out of scope (safe_join is purely lexical)",
         "SharedDataMiddleware: is_allowed (fnmatch against `disallow`, or a subclass override) is an arbitrary predicate on real_filename; a package export enters as the directory importlib's resource reader resolves resources against (FileReader semantics: open(<package dir>/<resource>)); os.path.isfile(value) at construction time is a separate predicate; get_path_info (latin-1 -> UTF-8 re-decoding of PATH_INFO) is not modelled, the request path is the decoded text; mimetype / cache / etag headers are not modelled (AST facts glue_export_loop_shape: nothing but is_allowed gates the file after the loop); export values other than str / tuple raise TypeError in this version (no callable loaders)",
-        "send_from_directory: os.fspath of PathLike arguments is pathlib's (the stream passes PurePosixPath objects, the model receives os.fspath of them); without _root_path send_file opens os.path.abspath(path_str), modelled as the same path relative to the working directory; known finding F14b (relative _root_path joined twice) is excluded by the hypothesis of send_from_directory_root_partial",
+        "send_from_directory: os.fspath of PathLike arguments is pathlib's (the stream passes PurePosixPath objects, the model receives os.fspath of them); without _root_path send_file opens os.path.abspath(path_str), modelled as the same path relative to the working directory; known finding F14b (relative _root_path joined twice) is excluded by the hypothesis of send_from_directory_root_partial; a violation is labelled F14b only for a send_from_directory case with a relative _root_path whose observed outcome (content of the file opened, or FileNotFoundError) is exactly what the Lean model sendFromDirectoryRoot predicts for that case (tested file inside the root, opened = join(r, tested) outside it); the temporary tree mirrors every file of the root at the doubly joined location, with sentinel contents, so any other wrong outcome differs from the prediction",
         "secure_filename on Windows: the device-file branch and the separators are parameters of the model (secureAsciiWith seps nt); stream secure-filename-nt switches the branch on by patching the three os attributes the function reads inside werkzeug.utils (name, sep, path.altsep); ntpath itself is never used",
         "FileStorage.save(dst) writes to dst as given (no sanitising): outside the property's claim, which only speaks about secure_filename; nothing of FileStorage is modelled",
         "containment is lexical: 'inside' means the segments of normpath(result) extend the segments of normpath(base) without '..' and with the same root ('', '/', '//')",
